@@ -682,6 +682,10 @@ class Fxp():
         elif isinstance(val, (int, float, complex)):
             vdtype = type(val)
 
+            # a Python integer outside the int64 range is kept exact (np.array would turn it into uint64 or float64)
+            if isinstance(val, int) and not (-2**63 <= val < 2**63):
+                val = np.array(val, dtype=object)
+
         elif isinstance(val, (np.ndarray, np.generic)):
             if isinstance(val, object):
                 vdtype = type(val.item(0))
@@ -844,12 +848,19 @@ class Fxp():
         if original_vdtype != complex and not np.issubdtype(original_vdtype, np.complexfloating):
             # val_dtype determination
             _n_word_max_ = min(_n_word_max, 64)
-            if np.max(val) >= 2**_n_word_max_ or np.min(val) < -2**_n_word_max_ or self.n_word >= _n_word_max_:
-                val_dtype = object
+            _use_pyint = np.max(val) >= 2**_n_word_max_ or np.min(val) < -2**_n_word_max_ or self.n_word >= _n_word_max_
+            if not _use_pyint and isinstance(conv_factor, int) and val.dtype != np.uint64 and \
+                (val.dtype == object or np.issubdtype(val.dtype, np.integer)):
+                # integer values whose scaled magnitude does not fit in int64 are computed with Python integers
+                # (an int64 product would wrap silently); uint64 keeps its reinterpretation as int64
+                _abs_max = max(abs(int(np.max(val))), abs(int(np.min(val))))
+                _use_pyint = conv_factor >= 2**(_n_word_max_ - 1) or _abs_max * conv_factor >= 2**(_n_word_max_ - 1)
+
+            if _use_pyint:
                 val = val.astype(object)
             else:
                 val = val.astype(original_vdtype)
-                val_dtype = np.int64 if self.signed else np.uint64
+            val_dtype = object if self.n_word >= _n_word_max_ else (np.int64 if self.signed else np.uint64)
 
             # rounding and overflowing
             new_val = self._round(val * conv_factor , method=self.config.rounding)
